@@ -59,6 +59,13 @@ structure Env where
   parents : List Frame
   contracts : Hash → Option (List Key)
 
+/-- loading a new script context on top of `e` (vm.go:478-497: `ctx.sc.callingContext = parent.sc`). -/
+def Env.push (e : Env) (f : Frame) : Env := { e with cur := f, parents := e.cur :: e.parents }
+
+/-- the environment after the entry script `f0` and the successive loads `fs` (outermost first). -/
+def Env.ofCalls (k : Hash → Option (List Key)) (f0 : Frame) (fs : List Frame) : Env :=
+  fs.foldl Env.push { cur := f0, parents := [], contracts := k }
+
 /-- vm.go:2214 GetCurrentScriptHash. -/
 def Env.current (e : Env) : Hash := e.cur.hash
 /-- vm.go:2204 GetCallingScriptHash. -/
@@ -358,5 +365,44 @@ def decodeSigner (decKey : Bytes → Option (Key × Bytes)) (bs : Bytes) : Optio
             | none => none
             | some (rs, r4) =>
               some ({ account := acc, scopes := sc, allowedContracts := cs, allowedGroups := gs, rules := rs }, r4)
+
+/-! ### Binary encoder of conditions -/
+
+
+/-- big-endian bytes of `v`, exactly `n` of them. -/
+def beBytes : Nat → Nat → Bytes
+  | 0, _ => []
+  | n+1, v => UInt8.ofNat (v / 256 ^ n % 256) :: beBytes n v
+
+mutual
+/-- WitnessCondition.EncodeBinary (witness_condition.go:122-585). -/
+def encodeCond (encKey : Key → Bytes) : Cond → Bytes
+  | .boolean b => [tBoolean, if b then 1 else 0]
+  | .not c => tNot :: encodeCond encKey c
+  | .and cs => tAnd :: (Wire.putVarUint cs.length ++ encodeConds encKey cs)
+  | .or cs => tOr :: (Wire.putVarUint cs.length ++ encodeConds encKey cs)
+  | .scriptHash h => tScriptHash :: beBytes 20 h
+  | .group k => tGroup :: encKey k
+  | .calledByEntry => [tCalledByEntry]
+  | .calledByContract h => tCalledByContract :: beBytes 20 h
+  | .calledByGroup k => tCalledByGroup :: encKey k
+def encodeConds (encKey : Key → Bytes) : List Cond → Bytes
+  | [] => []
+  | c :: cs => encodeCond encKey c ++ encodeConds encKey cs
+end
+
+mutual
+/-- every hash of the tree fits 20 bytes. -/
+def Cond.hashesOk : Cond → Prop
+  | .not c => c.hashesOk
+  | .and cs => hashesOkList cs
+  | .or cs => hashesOkList cs
+  | .scriptHash h => h < 2 ^ 160
+  | .calledByContract h => h < 2 ^ 160
+  | _ => True
+def hashesOkList : List Cond → Prop
+  | [] => True
+  | c :: cs => c.hashesOk ∧ hashesOkList cs
+end
 
 end NeoModel.Witness
